@@ -225,6 +225,21 @@ Theorem cow_isolated : forall xs x w' o,
 Proof. exact cow_isolated_full. Qed.
 Print Assumptions cow_isolated.
 
+(* The write set of an operation, on the store.  `ext c s s'` unfolded: the store only grows, no
+   node ever changes its creator tag, and every node NOT tagged c is exactly as before.  After any
+   history, an operation on tree i satisfies it with c = i (it writes in place only nodes it created
+   itself - everything else is copied first); new-tree and clone only allocate. *)
+Theorem writes_own_nodes_only : forall xs x w' o,
+  let w := execs (mkSW [] []) xs in
+  exec w x = (w', o) ->
+  let c := match target x with Some i => i | None => length (sw_trees w) end in
+  (length (sw_store w) <= length (sw_store w'))%nat /\
+  forall id n, nth_error (sw_store w) id = Some n ->
+    (s_cr n <> c -> nth_error (sw_store w') id = Some n) /\
+    exists n', nth_error (sw_store w') id = Some n' /\ s_cr n' = s_cr n.
+Proof. exact writes_own_nodes_only_proof. Qed.
+Print Assumptions writes_own_nodes_only.
+
 (* Isolation node by node: after any history, one more operation leaves every NODE that any other
    tree reaches (its footprint `fp`: the tree is represented on exactly these ids before and after)
    literally untouched in the store - same id, creator, keys and children.  This is what keeps
